@@ -57,6 +57,8 @@ Proof. unfold qualify. now rewrite map_map. Qed.
 Section BRIDGE.
   Variable re_match : string -> string -> bool.
   Variable parse_float : string -> option Q.
+  Variable json_get : string -> list string -> string.
+  Variable hash_labels : labels -> Z.
   Variable tie : forall A : Type, list A -> list A.
   Hypothesis tie_perm : forall A (l : list A), Permutation (tie A l) l.
   Variable c : pctx.
@@ -64,9 +66,9 @@ Section BRIDGE.
   Hypothesis Hctx : ctx_ok c = true.
 
   Notation DB := (to_sqldb c d).
-  Notation EV := (ev re_match parse_float tie (to_sqldb c d)).
-  Notation ET := (etab re_match parse_float tie (to_sqldb c d)).
-  Notation ES := (esel re_match parse_float tie (to_sqldb c d)).
+  Notation EV := (ev re_match parse_float json_get hash_labels tie (to_sqldb c d)).
+  Notation ET := (etab re_match parse_float json_get hash_labels tie (to_sqldb c d)).
+  Notation ES := (esel re_match parse_float json_get hash_labels tie (to_sqldb c d)).
 
   (* ---------- Part 1a: table scans ---------- *)
   Lemma ctx_names :
@@ -175,7 +177,7 @@ Section BRIDGE.
     | None => None
     | Some rows0 =>
       match filter_opt (fun r => match cond_ok EV (s_prewhere q) r, cond_ok EV (s_where q) r with
-                                 | Some a, Some b => Some (a && b) | _, _ => None end) rows0 with
+                                 | Some a, Some b => Some (a && b) | _, _ => None end) (map (arow EV (s_cols q)) rows0) with
       | None => None
       | Some rows1 =>
         match order_groups tie EV (s_orderby q) (map (fun r => [r]) rows1) with
@@ -216,6 +218,10 @@ Section BRIDGE.
     2:{ intros x _. now rewrite Hk, Hint. }
     fold (ord_dirs (o :: ords')). rewrite (isort_map (fun x => (keys x, h x))). now rewrite map_map.
   Qed.
+
+  (* a SELECT list without aliases adds nothing to a row *)
+  Lemma arow_fp_id (l : table) : map (arow EV [Id "fingerprint"]) l = l.
+  Proof. rewrite <- (map_id l) at 2. apply map_ext. intros r. reflexivity. Qed.
 
   (* ---------- Part 1c: the fp_sel CTE of StreamSelectPlanner ---------- *)
   Definition gin_where (ms : list matcher) (g : gin_row) : bool :=
@@ -275,7 +281,7 @@ Section BRIDGE.
     intros Hne. unfold esel, esel_gen, stream_select.
     cbn [s_distinct s_offset s_unions s_from s_joins s_prewhere s_where s_groupby s_having s_orderby s_limit s_cols
          and_having and_where and_into set_having set_where set_groupby set_from set_cols empty_select fold_left].
-    rewrite et_gin.
+    rewrite et_gin, arow_fp_id.
     rewrite (filter_opt_map_total genv _ (gin_where ms)).
     2:{ intros g _. unfold cond_ok, And, Ge, format_from_date. cbn [ev map_opt].
         rewrite (ev_get_types (genv g) [] (g_type g)) by reflexivity.
@@ -386,7 +392,7 @@ Section BRIDGE.
     intros Hm Hc Ho. unfold esel, esel_gen, slf_select.
     cbn [s_distinct s_offset s_unions s_from s_joins s_prewhere s_where s_groupby s_having s_orderby s_limit s_cols
          and_where and_into set_where set_from set_cols with_ add_withs set_withs empty_select fold_left app And].
-    rewrite et_ts.
+    rewrite et_ts, arow_fp_id.
     rewrite (filter_opt_map_total tenv _ (fun s => memz (ts_fp s) F && lf_ok re_match parse_float (ts_labels s) f)).
     2:{ intros s _. unfold cond_ok.
         pose proof (ev_in_sub (Id "fingerprint") id main [tenv s] (ts_fp s) F eq_refl Hm) as HI.
@@ -403,64 +409,62 @@ Section BRIDGE.
   Definition lft_stage (t : lft) : stage := PLineFilter (fst (fst t)) (snd (fst t)) (snd t).
   Definition lft_ok (line : string) (t : lft) : bool := line_ok re_match line (fst (fst t)) (snd (fst t)).
 
-  Lemma ev_do_like_like val x g :
-    EV (do_like "like" val) (senv x :: g) = Some (vbool (contains val (x_line x))).
+  (* a row on which the line text is reachable under both names the line-filter predicates use *)
+  Definition line_row (r : row) (line : string) : Prop :=
+    lookup "samples.string" r = Some (VStr line) /\ lookup "string" r = Some (VStr line).
+  Lemma ev_do_like_like val r g line : line_row r line ->
+    EV (do_like "like" val) (r :: g) = Some (vbool (contains val line)).
   Proof.
-    unfold do_like, Eq, like_pattern. cbn [ev String.eqb Ascii.eqb Bool.eqb].
-    change (lookup "samples.string" (senv x)) with (Some (VStr (x_line x))).
+    intros [H1 _]. unfold do_like, Eq, like_pattern. cbn [ev String.eqb Ascii.eqb Bool.eqb]. rewrite H1.
     rewrite str_fn2_str, vcmp_bool_1. change (esc_like val) with (map_string esc_like_c val).
     now rewrite like_contains.
   Qed.
-  Lemma ev_do_like_notlike val x g :
-    EV (do_like "notLike" val) (senv x :: g) = Some (vbool (negb (contains val (x_line x)))).
+  Lemma ev_do_like_notlike val r g line : line_row r line ->
+    EV (do_like "notLike" val) (r :: g) = Some (vbool (negb (contains val line))).
   Proof.
-    unfold do_like, Eq, like_pattern. cbn [ev String.eqb Ascii.eqb Bool.eqb].
-    change (lookup "samples.string" (senv x)) with (Some (VStr (x_line x))).
+    intros [H1 _]. unfold do_like, Eq, like_pattern. cbn [ev String.eqb Ascii.eqb Bool.eqb]. rewrite H1.
     rewrite str_fn2_str, vcmp_bool_1. change (esc_like val) with (map_string esc_like_c val).
     now rewrite like_contains.
   Qed.
-  Lemma ev_do_like_ilike val x g :
-    EV (do_like "ilike" val) (senv x :: g) = Some (vbool (contains (to_lower val) (to_lower (x_line x)))).
+  Lemma ev_do_like_ilike val r g line : line_row r line ->
+    EV (do_like "ilike" val) (r :: g) = Some (vbool (contains (to_lower val) (to_lower line))).
   Proof.
-    unfold do_like, Eq, like_pattern. cbn [ev String.eqb Ascii.eqb Bool.eqb].
-    change (lookup "samples.string" (senv x)) with (Some (VStr (x_line x))).
+    intros [H1 _]. unfold do_like, Eq, like_pattern. cbn [ev String.eqb Ascii.eqb Bool.eqb]. rewrite H1.
     rewrite str_fn2_str, vcmp_bool_1. change (esc_like val) with (map_string esc_like_c val).
     now rewrite ilike_contains.
   Qed.
-  Lemma ev_do_like_notilike val x g :
-    EV (do_like "notILike" val) (senv x :: g) = Some (vbool (negb (contains (to_lower val) (to_lower (x_line x))))).
+  Lemma ev_do_like_notilike val r g line : line_row r line ->
+    EV (do_like "notILike" val) (r :: g) = Some (vbool (negb (contains (to_lower val) (to_lower line)))).
   Proof.
-    unfold do_like, Eq, like_pattern. cbn [ev String.eqb Ascii.eqb Bool.eqb].
-    change (lookup "samples.string" (senv x)) with (Some (VStr (x_line x))).
+    intros [H1 _]. unfold do_like, Eq, like_pattern. cbn [ev String.eqb Ascii.eqb Bool.eqb]. rewrite H1.
     rewrite str_fn2_str, vcmp_bool_1. change (esc_like val) with (map_string esc_like_c val).
     now rewrite ilike_contains.
   Qed.
 
-  Lemma ev_lft_clause t x g : stage_oracle_ok re_match parse_float (lft_stage t) ->
-    EV (lft_clause t) (senv x :: g) = Some (vbool (lft_ok (x_line x) t)).
+  Lemma ev_lft_clause t r g line : line_row r line -> stage_oracle_ok re_match parse_float (lft_stage t) ->
+    EV (lft_clause t) (r :: g) = Some (vbool (lft_ok line t)).
   Proof.
-    destruct t as [[op val] rl]. unfold lft_clause, lft_stage, lft_ok, line_filter_clause, line_ok. cbn [fst snd].
+    intros Hr. destruct t as [[op val] rl]. unfold lft_clause, lft_stage, lft_ok, line_filter_clause, line_ok. cbn [fst snd].
     intros Ho. cbn [stage_oracle_ok] in Ho.
     destruct op.
-    - apply ev_do_like_like.
-    - apply ev_do_like_notlike.
+    - now apply ev_do_like_like.
+    - now apply ev_do_like_notlike.
     - destruct rl as [[lit ins]|].
-      + rewrite Ho. destruct ins; [apply ev_do_like_ilike|apply ev_do_like_like].
-      + unfold Eq, sql_match. cbn [ev String.eqb Ascii.eqb Bool.eqb].
-        change (lookup "string" (senv x)) with (Some (VStr (x_line x))).
+      + rewrite Ho. destruct ins; [now apply ev_do_like_ilike|now apply ev_do_like_like].
+      + destruct Hr as [_ H2]. unfold Eq, sql_match. cbn [ev String.eqb Ascii.eqb Bool.eqb]. rewrite H2.
         now rewrite str_fn2_str, vcmp_bool_1.
     - destruct rl as [[lit ins]|].
-      + rewrite Ho. destruct ins; [apply ev_do_like_notilike|apply ev_do_like_notlike].
-      + unfold Eq, sql_match. cbn [ev String.eqb Ascii.eqb Bool.eqb].
-        change (lookup "string" (senv x)) with (Some (VStr (x_line x))).
+      + rewrite Ho. destruct ins; [now apply ev_do_like_notilike|now apply ev_do_like_notlike].
+      + destruct Hr as [_ H2]. unfold Eq, sql_match. cbn [ev String.eqb Ascii.eqb Bool.eqb]. rewrite H2.
         now rewrite str_fn2_str, vcmp_bool_0.
   Qed.
 
-  Lemma ev_lft_clauses x g lfs : (forall t, List.In t lfs -> stage_oracle_ok re_match parse_float (lft_stage t)) ->
-    Forall2 (fun e b => EV e (senv x :: g) = Some (vbool b)) (map lft_clause lfs) (map (lft_ok (x_line x)) lfs).
+  Lemma ev_lft_clauses r g line lfs : line_row r line ->
+    (forall t, List.In t lfs -> stage_oracle_ok re_match parse_float (lft_stage t)) ->
+    Forall2 (fun e b => EV e (r :: g) = Some (vbool b)) (map lft_clause lfs) (map (lft_ok line) lfs).
   Proof.
-    induction lfs as [|t l IH]; intros Ho; cbn [map]; constructor.
-    - apply ev_lft_clause. apply Ho. now left.
+    intros Hr. induction lfs as [|t l IH]; intros Ho; cbn [map]; constructor.
+    - apply ev_lft_clause; [exact Hr|]. apply Ho. now left.
     - apply IH. intros t' Ht'. apply Ho. now right.
   Qed.
   Lemma forallb_map_id {A} (p : A -> bool) l : forallb (fun b => b) (map p l) = forallb p l.
@@ -502,13 +506,21 @@ Section BRIDGE.
     cbn [insert_sorted]. now rewrite H, IHs.
   Qed.
 
+  (* a samples row extended with the aliases of the main SELECT list (they shadow nothing: same values) *)
+  Definition main_cols : list expr :=
+    [SimpleCol "samples.timestamp_ns" "timestamp_ns"; SimpleCol "samples.fingerprint" "fingerprint";
+     SimpleCol "samples.string" "string"; Col (Fn "toFloat64" [IntV 0]) "value"].
+  Definition senv2 (x : sample) : row := (main_row x ++ senv x)%list.
+  Lemma arow_main x : arow EV main_cols (senv x) = senv2 x.
+  Proof. reflexivity. Qed.
+
   Lemma es_main w lfs F : ES (snd w) = Some (map fp_row F) ->
     (forall t, List.In t lfs -> stage_oracle_ok re_match parse_float (lft_stage t)) ->
     exists xs, Permutation xs (filter (main_pred F lfs) (d_samples d))
       /\ ES (main_select w lfs) = Some (map main_row (limited (isort ts_leb xs))).
   Proof.
     intros Hw Ho.
-    destruct (order_groups_gen [Ord (Id "timestamp_ns") (c_asc c)] (fun x => [senv x]) (fun x => [VInt (x_ts x)])
+    destruct (order_groups_gen [Ord (Id "timestamp_ns") (c_asc c)] (fun x => [senv2 x]) (fun x => [VInt (x_ts x)])
                 (filter (main_pred F lfs) (d_samples d))) as [xs [Hperm Hord]]; [discriminate|reflexivity|reflexivity|].
     exists xs. split; [exact Hperm|].
     rewrite esel_flat by (unfold main_select; destruct (c_limit c =? 0)%Z; reflexivity).
@@ -521,34 +533,32 @@ Section BRIDGE.
       by (unfold main_select; destruct (c_limit c =? 0)%Z; reflexivity).
     replace (s_orderby (main_select w lfs)) with [Ord (Id "timestamp_ns") (c_asc c)]
       by (unfold main_select; destruct (c_limit c =? 0)%Z; reflexivity).
-    replace (s_cols (main_select w lfs)) with
-        [SimpleCol "samples.timestamp_ns" "timestamp_ns"; SimpleCol "samples.fingerprint" "fingerprint";
-         SimpleCol "samples.string" "string"; Col (Fn "toFloat64" [IntV 0]) "value"]
+    replace (s_cols (main_select w lfs)) with main_cols
       by (unfold main_select; destruct (c_limit c =? 0)%Z; reflexivity).
     replace (s_limit (main_select w lfs)) with (if (c_limit c =? 0)%Z then None else Some (IntV (c_limit c)))
       by (unfold main_select; destruct (c_limit c =? 0)%Z; reflexivity).
-    rewrite et_samples.
-    rewrite (filter_opt_map_total senv _ (main_pred F lfs)).
+    rewrite et_samples, map_map. rewrite (map_ext _ senv2) by (intros x; apply arow_main).
+    rewrite (filter_opt_map_total senv2 _ (main_pred F lfs)).
     2:{ intros x _. unfold cond_ok, main_where.
         rewrite (ev_and_bools _ [Z.leb (c_from_ns c) (x_ts x); Z.ltb (x_ts x) (c_to_ns c); type_in c (x_type x)]).
         2: discriminate.
         2:{ constructor; [|constructor; [|constructor; [|constructor]]].
-            - unfold Ge. cbn [ev]. change (lookup "samples.timestamp_ns" (senv x)) with (Some (VInt (x_ts x))). apply vcmp_ge_int.
-            - unfold Lt. cbn [ev]. change (lookup "samples.timestamp_ns" (senv x)) with (Some (VInt (x_ts x))). apply vcmp_lt_int.
+            - unfold Ge. cbn [ev]. change (lookup "samples.timestamp_ns" (senv2 x)) with (Some (VInt (x_ts x))). apply vcmp_ge_int.
+            - unfold Lt. cbn [ev]. change (lookup "samples.timestamp_ns" (senv2 x)) with (Some (VInt (x_ts x))). apply vcmp_lt_int.
             - now apply ev_get_types. }
         rewrite (ev_and_bools _ (memz (x_fp x) F :: map (lft_ok (x_line x)) lfs)).
         2: discriminate.
         2:{ constructor.
-            - now apply (ev_in_sub (Id "samples.fingerprint") (fst w) (snd w) [senv x] (x_fp x) F).
-            - now apply ev_lft_clauses. }
+            - now apply (ev_in_sub (Id "samples.fingerprint") (fst w) (snd w) [senv2 x] (x_fp x) F).
+            - apply ev_lft_clauses; [split; reflexivity|exact Ho]. }
         rewrite !truthy_vbool. unfold main_pred, in_window. cbn [forallb]. f_equal.
         rewrite forallb_map_id, andb_true_r, !andb_assoc. reflexivity. }
     rewrite map_map, Hord.
     rewrite (isort_ext _ ts_leb) by (intros a b; unfold ord_dirs; cbn [map]; apply keys_leb_1).
     assert (Hlim : match (if (c_limit c =? 0)%Z then None else Some (IntV (c_limit c))) with
-                   | Some (IntV n) => Some (firstn (Z.to_nat n) (map (fun x => [senv x]) (isort ts_leb xs)))
-                   | None => Some (map (fun x => [senv x]) (isort ts_leb xs))
-                   | _ => None end = Some (map (fun x => [senv x]) (limited (isort ts_leb xs)))).
+                   | Some (IntV n) => Some (firstn (Z.to_nat n) (map (fun x => [senv2 x]) (isort ts_leb xs)))
+                   | None => Some (map (fun x => [senv2 x]) (isort ts_leb xs))
+                   | _ => None end = Some (map (fun x => [senv2 x]) (limited (isort ts_leb xs)))).
     { unfold limited. destruct (c_limit c =? 0)%Z; [reflexivity|]. now rewrite firstn_map. }
     rewrite Hlim. now apply map_opt_map_total.
   Qed.
@@ -559,7 +569,11 @@ Section BRIDGE.
   Definition ts_pred (F : list Z) (s : series_row) : bool :=
     Z.leb (from_day (c_from_ns c)) (ts_day s) && type_in c (ts_type s) && memz (ts_fp s) F.
   Definition ts_out (s : series_row) : row := [("fingerprint", VInt (ts_fp s)); ("labels", VMap (ts_labels s))].
-  Lemma ev_labels_raw s g : EV (Raw ts_labels_expr) (tsenv s :: g) = Some (VMap (ts_labels s)).
+  Lemma ev_labels_raw r g ls : lookup "time_series.labels" r = Some (VMap ls) ->
+    EV (Raw ts_labels_expr) (r :: g) = Some (VMap ls).
+  Proof. intros H. change (EV (Raw ts_labels_expr) (r :: g)) with (match lookup "time_series.labels" r with Some (VMap m) => Some (VMap m) | _ => None end). now rewrite H. Qed.
+  Definition tsenv2 (s : series_row) : row := (ts_out s ++ tsenv s)%list.
+  Lemma arow_ts s : arow EV [SimpleCol "time_series.fingerprint" "fingerprint"; Col (Raw ts_labels_expr) "labels"] (tsenv s) = tsenv2 s.
   Proof. reflexivity. Qed.
   Lemma es_ts w F : ES (snd w) = Some (map fp_row F) ->
     ES (ts_select w) = Some (map ts_out (filter (ts_pred F) (d_series d))).
@@ -571,19 +585,19 @@ Section BRIDGE.
     change (s_where (ts_select w)) with (@None expr). change (s_orderby (ts_select w)) with (@nil expr).
     change (s_limit (ts_select w)) with (@None expr).
     change (s_cols (ts_select w)) with [SimpleCol "time_series.fingerprint" "fingerprint"; Col (Raw ts_labels_expr) "labels"].
-    cbn iota beta. rewrite et_ts_dist.
-    rewrite (filter_opt_map_total tsenv _ (ts_pred F)).
+    cbn iota beta. rewrite et_ts_dist, map_map. rewrite (map_ext _ tsenv2) by (intros s; apply arow_ts).
+    rewrite (filter_opt_map_total tsenv2 _ (ts_pred F)).
     2:{ intros s _. unfold cond_ok.
         rewrite (ev_and_bools _ [Z.leb (from_day (c_from_ns c)) (ts_day s); type_in c (ts_type s); memz (ts_fp s) F]).
         2: discriminate.
         2:{ constructor; [|constructor; [|constructor; [|constructor]]].
-            - unfold Ge, format_from_date. cbn [ev]. change (lookup "time_series.date" (tsenv s)) with (Some (VInt (ts_day s))).
+            - unfold Ge, format_from_date. cbn [ev]. change (lookup "time_series.date" (tsenv2 s)) with (Some (VInt (ts_day s))).
               apply vcmp_ge_int.
             - now apply ev_get_types.
-            - now apply (ev_in_sub (Id "time_series.fingerprint") (fst w) (snd w) [tsenv s] (ts_fp s) F). }
+            - now apply (ev_in_sub (Id "time_series.fingerprint") (fst w) (snd w) [tsenv2 s] (ts_fp s) F). }
         rewrite truthy_vbool. unfold ts_pred. cbn [forallb]. now rewrite !andb_true_r, andb_assoc. }
     cbn [order_groups]. rewrite map_map.
-    apply map_opt_map_total. intros s _. cbn [map_opt col_body col_name SimpleCol]. rewrite ev_labels_raw. reflexivity.
+    apply map_opt_map_total. intros s _. cbn [map_opt col_body col_name SimpleCol]. rewrite (ev_labels_raw _ _ (ts_labels s)) by reflexivity. reflexivity.
   Qed.
 
   (* ---------- Part 1h: main ANY LEFT JOIN _time_series ---------- *)
@@ -647,7 +661,7 @@ Section BRIDGE.
         - apply (Permutation_in s Hperm Hs).
         - apply Z.eqb_eq. now symmetry. }
       rewrite E0. reflexivity. }
-    rewrite HJ.
+    rewrite HJ, map_map.
     rewrite (filter_opt_total _ (fun _ => true)) by (intros r _; reflexivity).
     rewrite filter_true.
     cbn [order_groups]. rewrite map_map.
@@ -674,7 +688,7 @@ Section BRIDGE.
   Proof.
     intros Hr.
     destruct (order_groups_gen [Ord (Id "fingerprint") (c_asc c); Ord (Id "timestamp_ns") (c_asc c)]
-                (fun xl => [env_of "prefinal" (pre_row xl)]) (fun xl => [VInt (x_fp (fst xl)); VInt (x_ts (fst xl))]) pl)
+                (fun xl => [(fin_row xl ++ env_of "prefinal" (pre_row xl))%list]) (fun xl => [VInt (x_fp (fst xl)); VInt (x_ts (fst xl))]) pl)
       as [pl' [Hperm Hord]]; [discriminate|reflexivity|reflexivity|].
     eexists. split.
     - rewrite esel_flat by reflexivity.
@@ -685,9 +699,11 @@ Section BRIDGE.
       change (s_cols (final_select req)) with
           [SimpleCol "prefinal.fingerprint" "fingerprint"; SimpleCol "prefinal.labels" "labels";
            SimpleCol "prefinal.string" "string"; SimpleCol "prefinal.timestamp_ns" "timestamp_ns"].
-      cbn iota beta. rewrite et_wref, Hr. cbn [option_map]. rewrite qualify_map.
+      cbn iota beta. rewrite et_wref, Hr. cbn [option_map]. rewrite qualify_map, map_map.
+      rewrite (map_ext _ (fun xl => (fin_row xl ++ env_of "prefinal" (pre_row xl))%list)) by (intros xl; reflexivity).
       rewrite (filter_opt_total _ (fun _ => true)) by (intros r _; reflexivity).
-      rewrite filter_true, map_map, Hord.
+      rewrite filter_true, map_map.
+      match goal with |- match ?O with _ => _ end = _ => pose proof (Hord : O = _) as HO; rewrite HO end.
       apply (map_opt_map_total _ _ fin_row). intros xl _. reflexivity.
     - apply Permutation_map. eapply Permutation_trans; [apply isort_perm|exact Hperm].
   Qed.
@@ -717,17 +733,19 @@ Section BRIDGE.
     Lemma sup_no_parser : forall l, forallb stage_supported l = true -> simple_ops l = map is_label_filter l.
     Proof.
       induction l as [|s l IH]; intros H; [reflexivity|]. cbn [forallb] in H. apply andb_prop in H. destruct H as [Hs Hl].
-      cbn [simple_ops map]. destruct s; try discriminate; cbn [is_parser is_label_filter]; now rewrite IH.
+      cbn [simple_ops map]. destruct s; try discriminate; cbn [is_relabel is_label_filter]; now rewrite IH.
     Qed.
     Lemma sup_lji : forall l i, forallb stage_supported l = true -> labels_join_idx l (map is_label_filter l) i = None.
     Proof.
       induction l as [|s l IH]; intros i H; [reflexivity|]. cbn [forallb] in H. apply andb_prop in H. destruct H as [Hs Hl].
       cbn [labels_join_idx map]. destruct s; try discriminate; cbn [is_label_filter]; now apply IH.
     Qed.
-    Lemma sup_renew : forall l, forallb stage_supported l = true -> renew_after l = map (fun _ => false) l.
+    Lemma sup_renew : forall l i, forallb stage_supported l = true -> renew_after l None i = map (fun _ => false) l.
     Proof.
-      induction l as [|s l IH]; intros H; [reflexivity|]. cbn [forallb] in H. apply andb_prop in H. destruct H as [Hs Hl].
-      cbn [renew_after map]. rewrite IH by assumption. destruct s; try discriminate; cbn [is_parser]; destruct l; reflexivity.
+      induction l as [|s l IH]; intros i H; [reflexivity|]. cbn [forallb] in H. apply andb_prop in H. destruct H as [Hs Hl].
+      cbn [renew_after map]. rewrite IH by assumption. destruct l as [|n l']; [reflexivity|].
+      cbn [forallb] in Hl. apply andb_prop in Hl. destruct Hl as [Hn _].
+      destruct s; try discriminate; cbn [is_parser is_drop]; destruct n; try discriminate; cbn [is_relabel]; try rewrite Bool.andb_false_r; reflexivity.
     Qed.
     Lemma sup_plan_ts : forall l acc, forallb stage_supported l = true ->
       fold_left (fun fp sb => match fst sb, snd sb with PLabelFilter f, true => PSimpleLabelFilter f fp | _, _ => fp end)
@@ -751,7 +769,7 @@ Section BRIDGE.
                               (lf_wrap (lfts ppl) (PFingerprintFilter (fp_planner ms (slfs ppl)) PMainInit))))
                            (fp_planner ms (slfs ppl)) PTimeSeriesInit false) false true).
     Proof.
-      unfold plan_log. cbn [sel_pipeline sel_matchers]. rewrite (sup_no_parser ppl Hsup), (sup_lji ppl 0 Hsup), (sup_renew ppl Hsup).
+      unfold plan_log. cbn [sel_pipeline sel_matchers]. rewrite (sup_no_parser ppl Hsup), (sup_lji ppl 0 Hsup), (sup_renew ppl 0 Hsup).
       unfold plan_ts. rewrite (sup_plan_ts ppl _ Hsup). fold (fp_planner ms (slfs ppl)).
       rewrite (sup_plan_spl _ ppl 0%nat _ Hsup). reflexivity.
     Qed.
@@ -1036,7 +1054,7 @@ Section BRIDGE.
       Theorem log_plan_correct :
         exists sel rows outs,
           log_select q c = Some sel
-          /\ eval re_match parse_float tie (to_sqldb c d) sel = Some rows
+          /\ eval re_match parse_float json_get hash_labels tie (to_sqldb c d) sel = Some rows
           /\ map row_out rows = map Some outs
           /\ logql_sem re_match parse_float q c d outs.
       Proof.
@@ -1091,16 +1109,16 @@ Section BRIDGE.
 End BRIDGE.
 (* ================= Part 5: the property theorems ================= *)
 Theorem logql_log_partial_proof :
-  forall re_match parse_float (tie : forall A : Type, list A -> list A),
+  forall re_match parse_float json_get hash_labels (tie : forall A : Type, list A -> list A),
     (forall A (l : list A), Permutation (tie A l) l) ->
     forall q c d, in_fragment q = true -> oracle_ok re_match parse_float q -> ctx_ok c = true -> db_ok c d ->
     width_guard q = true -> absent_guard re_match q d ->
-    log_correct re_match parse_float tie q c d.
+    log_correct re_match parse_float json_get hash_labels tie q c d.
 Proof.
-  intros re_match parse_float tie Htie [ms ppl] c d Hfrag Hor Hctx Hdb Hw Hg.
+  intros re_match parse_float json_get hash_labels tie Htie [ms ppl] c d Hfrag Hor Hctx Hdb Hw Hg.
   unfold in_fragment in Hfrag. cbn [sel_matchers sel_pipeline] in Hfrag. apply andb_prop in Hfrag. destruct Hfrag as [Hne Hsup].
   unfold width_guard in Hw. cbn [sel_matchers] in Hw. apply Nat.leb_le in Hw.
-  apply (log_plan_correct re_match parse_float tie Htie c d Hctx Hdb ms ppl); try assumption.
+  apply (log_plan_correct re_match parse_float json_get hash_labels tie Htie c d Hctx Hdb ms ppl); try assumption.
   - intros ->. discriminate.
   - lia.
 Qed.
@@ -1120,6 +1138,8 @@ Definition w_query : strsel :=
      sel_pipeline := [] |}.
 Definition no_re (_ _ : string) : bool := false.
 Definition no_float (_ : string) : option Q := None.
+Definition no_json (_ : string) (_ : list string) : string := "".
+Definition no_hash (_ : labels) : Z := 0%Z.
 Definition tie_id (A : Type) (l : list A) : list A := l.
 
 Lemma w_db_ok : db_ok w_ctx w_db.
@@ -1137,7 +1157,7 @@ Qed.
 Theorem logql_log_sound_complete_refuted_proof : ~ log_sound_complete_stmt.
 Proof.
   intros H.
-  destruct (H no_re no_float tie_id (fun A l => Permutation_refl l) w_query w_ctx w_db eq_refl) as [sel [rows [outs [Hsel [Hev [Hout Hsem]]]]]].
+  destruct (H no_re no_float no_json no_hash tie_id (fun A l => Permutation_refl l) w_query w_ctx w_db eq_refl) as [sel [rows [outs [Hsel [Hev [Hout Hsem]]]]]].
   - intros s [].
   - reflexivity.
   - exact w_db_ok.
@@ -1157,7 +1177,7 @@ Definition w9_query : strsel :=
   {| sel_matchers := map (fun n => {| m_name := n; m_op := MEq; m_val := "v" |}) w9_names; sel_pipeline := [] |}.
 Example nine_matchers_select :
   exists sel, log_select w9_query w_ctx = Some sel
-    /\ option_map (map row_out) (eval no_re no_float tie_id (to_sqldb w_ctx w9_db) sel)
+    /\ option_map (map row_out) (eval no_re no_float no_json no_hash tie_id (to_sqldb w_ctx w9_db) sel)
        = Some [Some {| o_fp := 7; o_labels := ts_labels w9_series; o_line := "hello"; o_ts := 1700000000000000005 |}].
 Proof. eexists. split; [vm_compute; reflexivity|]. vm_compute. reflexivity. Qed.
 
@@ -1174,7 +1194,7 @@ Example partial_guards_met :
   in_fragment ex_query = true /\ oracle_ok no_re no_float ex_query /\ ctx_ok ex_ctx = true /\ db_ok ex_ctx w_db
   /\ width_guard ex_query = true /\ absent_guard no_re ex_query w_db
   /\ exists sel, log_select ex_query ex_ctx = Some sel
-       /\ option_map (map row_out) (eval no_re no_float tie_id (to_sqldb ex_ctx w_db) sel)
+       /\ option_map (map row_out) (eval no_re no_float no_json no_hash tie_id (to_sqldb ex_ctx w_db) sel)
           = Some [Some {| o_fp := 7; o_labels := [("b", "1")]; o_line := "hello"; o_ts := 1700000000000000005 |}].
 Proof.
   split; [reflexivity|]. split.
